@@ -50,8 +50,8 @@ end Generic
 
 structure Rec where
   ts : Nat          -- Timestamp (ms)
-  dur : Nat         -- Duration
-  tot : Nat         -- TotalDuration
+  dur : Int         -- Duration (HAProxy logs -1 when the provider never answered)
+  tot : Int         -- TotalDuration
   status : Nat      -- StatusCode
   method : String
   url : String
@@ -71,8 +71,8 @@ structure EAgg where
   minT : Nat
   maxT : Nat
   count : Nat
-  sumDur : Nat     -- Go: AverageDuration * Count
-  sumTot : Nat     -- Go: AverageTotalDuration * Count
+  sumDur : Int     -- Go: AverageDuration * Count
+  sumTot : Int     -- Go: AverageTotalDuration * Count
   status : List (Nat × Nat)
 deriving Repr, DecidableEq
 
